@@ -223,10 +223,11 @@ fn main() {
     //     class of the base by the sign of its curvature (d3gen's own exact sum); euclidean base ⇒
     //     the 3D symbol is euclidean ⇒ `ptc_corpus` (a cover is demanded).
     //     quick:    mirror prisms: n ≤ 2 all; n = 3: spherical + euclidean all, hyperbolic every 4th;
-    //               n = 4: euclidean all, spherical every 8th, hyperbolic every 16th;
+    //               n = 4: euclidean all, spherical every 8th, hyperbolic every 64th;
     //               stackings: euclidean bases n ≤ 4 all automorphisms, n = 5, 6 automorphisms of
-    //               order ≥ 3; other bases n ≤ 2 all, n = 3 spherical all, hyperbolic every 8th
-    //     thorough: both families n ≤ 3 all, n = 4 spherical + euclidean all, hyperbolic every 3rd;
+    //               order ≥ 3; other bases n ≤ 2 all, n = 3 spherical all, hyperbolic every 32nd
+    //     thorough: both families n ≤ 3 all, n = 4 spherical + euclidean all, hyperbolic mirror prisms
+    //               every 8th and hyperbolic stackings every 24th (n = 3: stackings every 2nd);
     //               stackings over all euclidean bases n ≤ 6 and, for n = 7, 8, with automorphisms
     //               of order ≥ 3; invariance (ptcinv) on every 5th member
     let nprism = if th { 8 } else { 6 };
@@ -251,13 +252,13 @@ fn main() {
                             let stride = match (th, n, cls) {
                                 (_, 1..=2, _) => 1,
                                 (true, 3, _) => 1,
-                                (true, _, "hyp") => 3,
+                                (true, _, "hyp") => 8,
                                 (true, _, _) => 1,
                                 (false, 3, "hyp") => 4,
                                 (false, 3, _) => 1,
                                 (false, _, "euc") => 1,
                                 (false, _, "sph") => 8,
-                                (false, _, _) => 16,
+                                (false, _, _) => 64,
                             };
                             if (pserial + off) % stride == 0 {
                                 let extra = format!("prism mirror {} base={} aut={} order={}", cls, n, ai, o);
@@ -285,8 +286,9 @@ fn main() {
                         if let Some(p) = stacked_prisms(&b, a).filter(in_domain_3d) {
                             pserial += 1;
                             let stride = match (th, n, cls) {
-                                (true, 4, "hyp") => 3,
-                                (false, 3, "hyp") => 8,
+                                (true, 4, "hyp") => 24,
+                                (true, 3, "hyp") => 2,
+                                (false, 3, "hyp") => 32,
                                 _ => 1,
                             };
                             if (pserial + off) % stride == 0 {
